@@ -239,7 +239,10 @@ var c12Rels = []c12Rel{
 
 func c12Corruptions(thorough bool) []string {
 	out := []string{"", "sig-bit:2", "sig-bit:767", "sig-infinity", "bit-add", "bit-remove", "other-committee", "fork-version", "genesis-root",
-		"store-key:participant", "store-key:non-participant", "next-key", "no-finality-part", "no-next-committee-part"}
+		"store-key:participant", "store-key:non-participant", "next-key", "no-finality-part", "no-next-committee-part",
+		// the branch all zero while the header / committee it should prove is there (the shape by which
+		// the consensus spec recognises "no finality", with a part that is not empty)
+		"fin-branch-zeroed", "com-branch-zeroed"}
 	for _, f := range []string{"slot", "proposer", "parent", "state", "body"} {
 		out = append(out, "att:"+f, "fin:"+f)
 	}
@@ -282,8 +285,8 @@ func c12VerifyCases(thorough bool) []c12Case {
 			first, last = last, first
 		}
 		switch cl := c12CorruptClass(cor); {
-		case (cl == "fin-branch" || strings.HasPrefix(cl, "fin:")) && kind == "optimistic",
-			(cl == "com-branch" || cl == "next-key" || strings.HasPrefix(cl, "no-")) && kind != "full",
+		case (cl == "fin-branch" || cl == "fin-branch-zeroed" || strings.HasPrefix(cl, "fin:")) && kind == "optimistic",
+			(cl == "com-branch" || cl == "com-branch-zeroed" || cl == "next-key" || strings.HasPrefix(cl, "no-")) && kind != "full",
 			(cl == "bit-add" || cor == "store-key:non-participant") && part == c12N,
 			(cl == "bit-remove" || cor == "store-key:participant") && part == 0:
 			return
@@ -313,7 +316,7 @@ func c12VerifyCases(thorough bool) []c12Case {
 					}
 				}
 				if !thorough { // the other two conversion arms on a reduced menu
-					for _, cor := range []string{"", "sig-bit:2", "bit-add", "bit-remove", "att:slot", "fin:slot", "fin-branch:0", "com-branch:1", "next-key", "other-committee", "store-key:participant"} {
+					for _, cor := range []string{"", "sig-bit:2", "bit-add", "bit-remove", "att:slot", "fin:slot", "fin-branch:0", "fin-branch-zeroed", "com-branch:1", "com-branch-zeroed", "next-key", "other-committee", "store-key:participant"} {
 						add(rel, kind, "altair", next, 342, false, cor)
 						add(rel, kind, "capella", next, 342, false, cor)
 					}
